@@ -11,7 +11,8 @@ from . import common
 from .common import Corr, f2hex
 
 ID = "C12"
-LEAN_MODULES = ["TempestVerif.Props.C12", "TempestVerif.Props.C12Run", "TempestVerif.Props.C12PostX", "TempestVerif.Props.C12Bridge"]
+LEAN_MODULES = ["TempestVerif.Props.C12", "TempestVerif.Props.C12Run", "TempestVerif.Props.C12PostX", "TempestVerif.Props.C12Bridge",
+                "TempestVerif.Props.C12Source"]
 RULE = ("posterior(): on finished real runs (both kernels x both resamplers x blob form in {none, float, (float,3) from 3 scalars, "
         "(float,3) from one array, structured [('a',float),('b',int)], (float,(2,2)) from two rows, (float,(2,2)) from one 2x2 array, "
         "mixed structured with a sub-array field}) all 16 option combinations x (ess_trim,bins_trim) in {(0.99,1000),(0.9,50),(0.5,7)} "
@@ -54,7 +55,9 @@ MODELLED = ["trim_weights and systematic_resample inside the whole-routine model
             "beta <= 1 on return: proved on the closed-loop model (Props.C12.C12x_run_post, from C05's range theorem by induction over "
             "the run) and asserted on every real run",
             "the closed-loop model Model.ClosedLoop (C10) is tied to the real sampler by C10's closed-loop replay suites; here its "
-            "entry / guard / epilogue / n_total flow are tied by run-entry and by translator G12",
+            "entry / guard / epilogue / n_total flow are tied by run-entry and by translator G12; since the source pass the tests, "
+            "arithmetic and literals of run_sampling / _not_termination / _initialize_fresh / execute_iteration's save test are "
+            "COMPILED from core.py on every run (Gen/RunEntrySrc.lean) and Props/C12Source.lean proves the model unfolds to them",
             "which loop-top states save_every writes is C14's; the theorems hold for every loop-top state",
             "the stream position after load/reseed is C09's (only 'reseeded or not' is compared here)"]
 ASSUMPTIONS = ["np.percentile / sorting inside trim_weights are outside this property (C20)",
@@ -67,7 +70,7 @@ ASSUMPTIONS = ["np.percentile / sorting inside trim_weights are outside this pro
 
 def translators():
     from translate import g5_tables, g1_constants, g12_entry
-    return [g5_tables.generate(), g1_constants.generate(), g12_entry.generate()]
+    return [g5_tables.generate(), g1_constants.generate(), g12_entry.generate(), g12_entry.generate_src()]
 
 
 def _quiet():
